@@ -15,6 +15,7 @@ code -> spec : harness/c11 drives the real package with seeded random members (a
 import itertools
 import json
 import os
+import re
 
 S = "Baggage"
 REAL = {"MAXMEMBERS": 180, "MAXBYTES": 8192, "MAXMEMBERBYTES": 4096}
@@ -244,6 +245,11 @@ def rt_defines(tier, real=True, dev="{}", hmax=None):
     return d
 
 
+ALL_OPS = ["New", "SetMember", "SetZero", "DeleteMember", "ToCtx", "Scribble", "Parse", "FromCtx", "ClearCtx", "Child", "Propagate"]
+K_CYR = [sym("hi", "{d0}{ba}{d0}{bb}{d1}{8e}{d1}{87}", 8, "u")]      # "ключ": valid UTF-8, not a token
+K_DELIM = [TOK("a"), sym("comma", "{2c}", 1), TOK("b"), sym("eq", "{3d}", 1), TOK("c")]   # "a,b=c": delimiters inside a key
+
+
 def store_defines(tier, steps):
     k, K, p = [TOK("k")], [TOK("K")], [TOK("p")]
     margs = [arg(k, [vrun("safe")]), arg(k, [vrun("pct"), vrun("nonascii2")], [prop(p, [vrun("semi")])]),
@@ -255,8 +261,54 @@ def store_defines(tier, steps):
     d["NEWLISTS"] = tset([seq([margs[0], margs[2]]), seq([margs[1]])])
     d["DELKEYS"] = tset([q("k"), q("K")])
     d["HDRS"] = tset([seq(join_h([member_h("k", [ENC("x")], [("p", None)]), member_h("K", [V()])]))])
+    d["OPS"] = tset(q(o) for o in ALL_OPS)
     d["MAXSTEPS"] = steps
     return d
+
+
+def key_text(ks):
+    """the quoted key text the model uses for a key given as symbols (KeyStr)"""
+    return "".join(re.findall(r's \|-> "([^"]*)"', x)[0] for x in ks)
+
+
+def store_key_configs(tier):
+    """key classes x (SetMember add / REPLACE with another value / other properties / another property value only /
+    the identical member, DeleteMember present / absent): every key the constructors accept is a key of the map,
+    whether or not it can travel in a header; the same for property keys"""
+    k, p = [TOK("k")], [TOK("p")]
+    v1, v2 = [vrun("safe")], [vrun("pct"), vrun("nonascii2")]
+    x, y = [vrun("safe", 2)], [vrun("comma")]
+    cfgs = []
+    keys = [("nontoken", K_NONTOK), ("token", k)]
+    if tier == "thorough":
+        keys += [("space", K_SPACE), ("cyrillic", K_CYR), ("delims", K_DELIM)]
+    ops = ["New", "SetMember", "DeleteMember", "ToCtx", "Propagate"]
+    for name, key in keys:
+        margs = [arg(key, v1), arg(key, v2), arg(key, v1, [prop(p)]), arg(key, v1, [prop(p, x)]), arg(key, v1, [prop(p, y)]),
+                 arg(K_BADUTF8, v1)]
+        other = k if key is not k else [TOK("K")]
+        d = dict(REAL)
+        d["MEMBERARGS"] = tset(margs)
+        d["NEWLISTS"] = tset([seq([arg(other, v1), arg(key, v1, [prop(p, x)])])])
+        d["DELKEYS"] = tset([q(key_text(key)), q(key_text(other)), q("absent")])
+        d["HDRS"] = "{}"
+        d["OPS"] = tset(q(o) for o in ops)
+        d["MAXSTEPS"] = 3
+        cfgs.append(("store-key-" + name, d))
+    # property keys: the member key is a token, only a property (with a non-token / token key) changes
+    pkeys = [("nontoken", K_NONTOK)] + ([("cyrillic", K_CYR), ("token", [TOK("q")])] if tier == "thorough" else [])
+    for name, pk in pkeys:
+        margs = [arg(k, v1), arg(k, v1, [prop(pk)]), arg(k, v1, [prop(pk, x)]), arg(k, v1, [prop(pk, y)]),
+                 arg(k, v1, [prop(p, x), prop(pk, x)]), arg(k, v1, [prop(p, x), prop(pk, y)])]
+        d = dict(REAL)
+        d["MEMBERARGS"] = tset(margs)
+        d["NEWLISTS"] = tset([seq([arg(k, v1, [prop(pk, x)])])])
+        d["DELKEYS"] = tset([q("k"), q("absent")])
+        d["HDRS"] = "{}"
+        d["OPS"] = tset(q(o) for o in ops)
+        d["MAXSTEPS"] = 3
+        cfgs.append(("store-propkey-" + name, d))
+    return cfgs
 
 
 # ------------------------------------------------------------------ classification (known-finding matching)
